@@ -199,8 +199,8 @@ def AWrite.closeTail (a : AWrite) : AWrite × Out :=
     | .err k => (a3, .err k)
     | .panic => (a', .panic)
 
-def AWrite.pollClose (a : AWrite) (t : Nat) : AWrite × Out :=
-  let a := { a with slots := a.slots.set .c (some t) }
+/-- `poll_close` after `replace_waker` -/
+def AWrite.closeBody (a : AWrite) : AWrite × Out :=
   -- `self.write_future.is_some() || self.inner.has_pending_write()`
   let need : Option Bool := if a.wfut ≠ .idle then some true else a.w.hasPending
   match need with
@@ -214,6 +214,9 @@ def AWrite.pollClose (a : AWrite) (t : Nat) : AWrite × Out :=
       | (a', some (.ok _)) => a'.closeTail
       | (a', some (.err k)) => (a', .err k)
       | (a', some .panic) => (a', .panic)
+
+def AWrite.pollClose (a : AWrite) (t : Nat) : AWrite × Out :=
+  ({ a with slots := a.slots.set .c (some t) }).closeBody
 
 /-! ### the whole adapter, one operation per line of a test case -/
 
